@@ -311,6 +311,10 @@ class ExprMixin:
             return f(l, r)
         if isinstance(l, tuple) and isinstance(r, tuple) and isinstance(op, ast.Add):
             return l + r
+        if isinstance(l, VObj) and isinstance(op, ast.Div):
+            zs = self.zs
+            rt_ = r.term if isinstance(r, VObj) else zs.lift(r, z3.StringSort())
+            return VObj(self.ufun('obj_div_' + str(rt_.sort()), zs.zsort(api.Obj), rt_.sort(), zs.zsort(api.Obj))(l.term, rt_), l.cls)
         if isinstance(l, (VStruct, VAbs, VObj)) or isinstance(r, (VStruct, VAbs, VObj)):
             dn = {ast.Add: '__add__', ast.Sub: '__sub__', ast.Mult: '__mul__'}.get(type(op))
             if isinstance(l, VStruct) and dn and dn in _mro_dict(l.pycls):
@@ -618,6 +622,9 @@ class ExprMixin:
         if isinstance(base, VOpt):
             base = self.unwrap(base, node)
         if isinstance(base, VStruct):
+            me = getattr(self.cur_contract, 'method_effects', None) or {}
+            if attr in me and attr not in base.f:
+                return Builtin('effect:' + attr, lambda a, k, n, f, attr=attr: self.do_effect(attr, a, k, me[attr], n, f))
             if attr in base.f:
                 return base.f[attr]
             if base.pycls is not None:
@@ -659,10 +666,16 @@ class ExprMixin:
     def do_effect(self, name, args, kwargs, may_raise, node, fr):
         """a call that reaches the outside world: an event of the ghost trace; it may fail with the listed exceptions"""
         self.path.trace.append((name,) + tuple(args))
+        ret = None
+        if isinstance(may_raise, dict):
+            ret, may_raise = may_raise.get('returns'), may_raise.get('raises', [])
         for exn in may_raise:
             fails = self.path.fresh(z3.BoolSort(), f'{name}_raises_{exn}')
             if self.path.branch(fails):
+                self.path.trace.append(('raised', name, exn))
                 raise PyRaise(self.exc_class(exn, fr.module if fr else None), (), node)
+        if ret is not None:
+            return self.sym_of_sort(ret, 'r_' + name, fr)
         return None
 
     def obj_attr(self, base, attr, node):
